@@ -325,6 +325,12 @@ def run(ctx):
                     ctx.report({"kind": "hang", "fault": fclass}, replay,
                                "load did not return on a %s file" % what)
                 return
+            if fclass == "bad-reference" and out != "err:deser" and \
+                    ctx.prop == "C09":
+                ctx.report({"kind": "bad-reference-not-rejected"}, replay,
+                           "a file with reference fault %r was not rejected "
+                           "with DeserializationError (%s)" % (what, out))
+                return
             if ir is not None:
                 if not check_accepted(ctx, gtirb, ir, replay, what, fclass):
                     return
@@ -334,12 +340,6 @@ def run(ctx):
                 ctx.report({"kind": "header-not-rejected", "fault": fclass},
                            replay, "a file with a wrong %s was not rejected "
                            "with ValueError (%s)" % (fclass, out))
-                return
-            if fclass == "bad-reference" and out != "err:deser" and \
-                    ctx.prop == "C09":
-                ctx.report({"kind": "bad-reference-not-rejected"}, replay,
-                           "a file with reference fault %r was not rejected "
-                           "with DeserializationError (%s)" % (what, out))
                 return
             # model comparison on the message level
             if mmsg is not None:
